@@ -6,13 +6,21 @@ package main
 // class and of every value class that the parser distinguishes, so that each pair and triple of features meets.
 
 import (
+	"crypto/sha1"
+	"encoding/hex"
+	"encoding/json"
 	"strconv"
 	"strings"
+	"sync"
+
+	"github.com/wolimst/lib-secs2-hsms-go/pkg/ast"
+	"github.com/wolimst/lib-secs2-hsms-go/pkg/parser/sml"
 )
 
 func init() {
 	drivers["sml-enum"] = driverSmlEnum
 	drivers["layout-enum"] = driverLayoutEnum
+	drivers["cp-sweep"] = driverCpSweep
 }
 
 var smlEnumVocab = []string{
@@ -85,6 +93,7 @@ var layoutEnumBases = [][]string{
 	{"S1F1", "W", "<", "L", "...", ">", ".", "S1F3", "<", "A", "[", "1", "]", `"abc"`, ">", "."},
 	{"S127F255", "W", "H<->E", "<", "L", "<", "L", "<", "L", ">", ">", "<", "F8", "1e400", ">", ">", "S1F2", "<", "BOOLEAN", "[", "..", "1", "]", "T", "T", ">", "."},
 	{"S1F1", "W", "<", "A", "[", "1", "..", "]", "str", ">", ".", "S1F1", "<", "U2", "a", "...", ">", "."},
+	{"S1F1", "W", "H->E", "Lot/Wafer", "<", "U1", "5", ">", ".", "S5F1", "a/b/", ".", "S5F3", "/x", "<", "L", ">", ".", "S5F5", "W", "x/y/z", "."},
 }
 var layoutEnumSeps = []string{"", "  ", "\t", "\n", "\r\n", "\r", " \n\t ", " //c\n", "//c\r\n", " // é <L \"\n", "\n\n// . S9F9\n", "\v", " "}
 
@@ -136,6 +145,90 @@ func driverLayoutEnum(c *Ctx) {
 			if t == "." {
 				inHeader = true
 			}
+		}
+	}
+}
+
+// cp-sweep: every Unicode code point from U+0080 up, placed inside a literal in four contexts. The real parser's
+// outcome class (error and nothing returned / accepted with which values) is recorded as maximal intervals of code
+// points on which it is constant; for each interval the texts at both ends and in the middle are recorded as ordinary
+// parse events, which TLC judges against the parser model. Inside a quoted string every such character is an error.
+var cpContexts = []struct{ name, pre, post string }{
+	{"string", `S1F1 <A "ab`, `cd"> .`},
+	{"number", `S1F1 <U2 12`, `34> .`},
+	{"code", `S1F1 <A 0x4`, `1> .`},
+	{"bool", `S1F1 <BOOLEAN T`, ` F> .`},
+	{"float", `S1F1 <F8 1.`, `5> .`},
+}
+
+func cpClass(text string) string {
+	var msgs []*ast.DataMessage
+	var errs []string
+	if p, _ := try(func() { msgs, errs, _ = sml.Parse(text) }); p {
+		return "panic"
+	}
+	if len(errs) > 0 {
+		if len(msgs) > 0 {
+			return "both"
+		}
+		return "error"
+	}
+	b, _ := json.Marshal(projMsgs(msgs))
+	h := sha1.Sum(b)
+	return "accepted:" + hex.EncodeToString(h[:6])
+}
+
+func driverCpSweep(c *Ctx) {
+	const first, last = 0x80, 0x10FFFF
+	// quick: every code point of the basic plane, every 61st beyond it (and the last); thorough: every code point
+	var pts []int
+	for cp := first; cp <= last; cp++ {
+		if c.Tier == "thorough" || cp <= 0xFFFF || cp%61 == 0 || cp == last {
+			pts = append(pts, cp)
+		}
+	}
+	idx := -1
+	for _, cx := range cpContexts {
+		classes := make([]string, len(pts))
+		var wg sync.WaitGroup
+		const workers = 16
+		for w := 0; w < workers; w++ {
+			wg.Add(1)
+			go func(w int) {
+				defer wg.Done()
+				for k := w; k < len(pts); k += workers {
+					classes[k] = cpClass(cx.pre + string(rune(pts[k])) + cx.post)
+				}
+			}(w)
+		}
+		wg.Wait()
+		start, prevb := 0, first-1
+		for k := 0; k <= len(pts); k++ {
+			if k < len(pts) && classes[k] == classes[start] {
+				continue
+			}
+			idx++
+			a, b := pts[start], pts[k-1]
+			if c.want(idx) {
+				cls := classes[start]
+				if strings.HasPrefix(cls, "accepted") {
+					cls = "accepted"
+				}
+				c.emit(idx, J{"ev": "cpivl", "ctx": cx.name, "a": a, "b": b, "prevb": prevb, "class": cls, "final": b == last,
+					"points": k - start})
+				for _, p := range []int{a, pts[(start+k-1)/2], b} {
+					ev := parseEvent(cx.pre + string(rune(p)) + cx.post)
+					ev["ev"] = "parse"
+					ev["how"] = "cp-" + cx.name
+					c.emit(idx, ev)
+					if p == b {
+						break
+					}
+				}
+				c.count("cpsweep.intervals")
+			}
+			prevb = b
+			start = k
 		}
 	}
 }
